@@ -3,8 +3,8 @@
 (patch applies, repository test suite still passes, demonstration fails with / passes without the change) and run the checks
 of /verif against the changed tree (VERIF_REPO=<scratch worktree>; /repo itself is never modified).
 
-  tools/seeded.py import  <agent-out-dir> <CID>        -> /verif/seeded/<CID>-m<k>/ {patch.diff, demo.py, notes.md, meta.json}
-  tools/seeded.py confirm [<name> ...]                  (all when no name is given)
+  tools/seeded.py import  <agent-out-dir> <CID> [w2]   -> /verif/seeded/<CID>-[w2]m<k>/ {patch.diff, demo.py, notes.md, meta.json}
+  tools/seeded.py confirm [<name or glob> ...]          (all when no name is given)
   tools/seeded.py eval    [--tier quick|thorough] [--all-checks] [<name> ...]
   tools/seeded.py table                                  -> markdown table of what catches what
 """
@@ -45,7 +45,8 @@ class Scratch:
 
 def names(args):
     all_ = sorted(d for d in os.listdir(SEEDED) if os.path.isdir(os.path.join(SEEDED, d)))
-    return [a for a in args if a in all_] or all_
+    import fnmatch
+    return [n for n in all_ if any(fnmatch.fnmatch(n, a) for a in args)] or ([] if args else all_)
 
 
 def load(name):
@@ -56,12 +57,12 @@ def save(name, meta):
     json.dump(meta, open(os.path.join(SEEDED, name, 'meta.json'), 'w'), indent=1, sort_keys=True)
 
 
-def cmd_import(out, cid):
+def cmd_import(out, cid, wave=''):
     for k in (1, 2, 3):
         src = os.path.join(out, 'm%d' % k)
         if not os.path.exists(os.path.join(src, 'patch.diff')):
             continue
-        name = '%s-m%d' % (cid, k)
+        name = '%s-%sm%d' % (cid, wave, k)
         dst = os.path.join(SEEDED, name)
         os.makedirs(dst, exist_ok=True)
         for f in ('patch.diff', 'demo.py', 'notes.md'):
@@ -158,7 +159,7 @@ if __name__ == '__main__':
     if not a:
         print(__doc__)
     elif a[0] == 'import':
-        cmd_import(a[1], a[2])
+        cmd_import(a[1], a[2], a[3] if len(a) > 3 else '')
     elif a[0] == 'confirm':
         ok = [confirm(n) for n in names(a[1:])]
     elif a[0] == 'eval':
